@@ -8,6 +8,9 @@
      P  charset parameter: "none", "latin-1", "utf-8", "UTF-8", "utf-16", "utf-32", "utf-16le", "gb2312", "ascii",
         "unknown" (no such codec), "quoted" (the value keeps its quotes; Python still finds utf-8), "nontext" (a codec that
         does not turn str into bytes, e.g. none / hex)
+     N  spelling of the parameter NAME: "lower" (charset=) or "other" (Charset=, CHARSET=, ...).  The code looks the
+        parameter up with params.get("charset"): any other spelling is not seen when inferring, and the UTF-8 fallback
+        then ADDS a lower-case charset parameter after the existing one
      D  what the text starts with: "none", "feff" (U+FEFF), "lat16le" / "lat16be" / "lat8" (latin-1 characters whose
         bytes are a UTF-16 / UTF-8 byte-order mark), "meta_X" / "xml_X" / "css_X" (a declaration naming charset X in
         {latin1, utf8, unk}), "late_css" (a CSS @charset rule that is not the very first thing: not a declaration)
@@ -17,7 +20,8 @@
    Codecs: "latin1","ascii","utf8","utf16","utf32","utf16le","gb18030","unk","nontext", and on the read side also
    "utf8sig","utf16be","utf32le".                                                                           *)
 EXTENDS Mon_MsgText, TLC
-CONSTANTS Ts, Ps, Ds, Ss
+CONSTANTS Ts, Ps, Ds, Ss,
+          NameCasePs    \* charset classes that are also tried with the parameter name spelled Charset / CHARSET
 VARIABLES hdr, pc, mon, obs
 vars == <<hdr, pc, mon, obs>>
 
@@ -82,8 +86,9 @@ Same(used, g, D, S) ==
     [] OTHER -> FALSE
 
 \* ---- set_text then get_text -------------------------------------------------------------------------------
-Round(T, P, D, S) ==
-  LET e0 == Infer(T, P, "none", "none", D)                                  \* set_text infers from the header only
+Round(T, P0, N, D, S) ==
+  LET P == IF N = "lower" THEN P0 ELSE "none"                               \* what params.get("charset") finds
+      e0 == Infer(T, P, "none", "none", D)                                  \* set_text infers from the header only
       chars == Chars(D, S)
       raises == e0 = "nontext"                                               \* str -> str / bytes-only codec: TypeError escapes
       ok == CanEncode(e0, chars)
@@ -94,7 +99,7 @@ Round(T, P, D, S) ==
       seen == IF AsciiCompatible(used) THEN DeclKind(D) ELSE "none"
       g == Infer(T2, P2, bom, seen, D)
       hascs == Parsable(T2) /\ P2 # "none"
-      setev == [k |-> "settext", T |-> T, P |-> P, D |-> D, S |-> S, arg |-> 1,
+      setev == [k |-> "settext", T |-> T, P |-> P0, N |-> N, D |-> D, S |-> S, arg |-> 1,
                 exc |-> IF raises THEN "TypeError" ELSE "", rep |-> TRUE, hascs |-> IF raises THEN Parsable(T) /\ P # "none" ELSE hascs,
                 rawbom |-> IF raises THEN "none" ELSE bom, decl |-> DeclKind(D)]
   IN IF raises THEN <<setev>>
@@ -104,14 +109,15 @@ Round(T, P, D, S) ==
 Expand(ev) == IF ev.k # "gettext" THEN ev
               ELSE [k |-> "gettext", exc |-> "", res |-> IF ev.out = "same" THEN 1 ELSE 2]
 
-Init == hdr = <<"-", "-">> /\ pc = "new" /\ mon = MonInit /\ obs = <<>>
+Init == hdr = <<"-", "-", "-">> /\ pc = "new" /\ mon = MonInit /\ obs = <<>>
 Live == mon.bad = <<>>
-Valid(T, P) == Parsable(T) \/ P = "none"
-NewMsg(T, P) == /\ pc = "new" /\ Valid(T, P) /\ hdr' = <<T, P>> /\ pc' = "set" /\ obs' = <<>> /\ UNCHANGED mon
+Valid(T, P, N) == /\ Parsable(T) \/ P = "none"
+                  /\ N = "lower" \/ P \in NameCasePs
+NewMsg(T, P, N) == /\ pc = "new" /\ Valid(T, P, N) /\ hdr' = <<T, P, N>> /\ pc' = "set" /\ obs' = <<>> /\ UNCHANGED mon
 SetGet(D, S) == /\ Live /\ pc = "set" /\ pc' = "done" /\ UNCHANGED hdr
-                /\ LET evs == Round(hdr[1], hdr[2], D, S) IN
+                /\ LET evs == Round(hdr[1], hdr[2], hdr[3], D, S) IN
                    obs' = evs /\ mon' = FoldEvents(MonStep, mon, [i \in 1..Len(evs) |-> Expand(evs[i])])
-Next == \/ \E T \in Ts, P \in Ps : NewMsg(T, P)
+Next == \/ \E T \in Ts, P \in Ps, N \in {"lower", "other"} : NewMsg(T, P, N)
         \/ \E D \in Ds, S \in Ss : SetGet(D, S)
 Spec == Init /\ [][Next]_vars
 Report == mon.bad # <<>> => PrintT(<<"BAD", mon.bad>>)
